@@ -2099,7 +2099,7 @@ func (c *Container) runCountRange(start, end int32) (n int32) {
 			break
 		}
 		// iv is superset of range
-		if int32(iv.start) < start && int32(iv.last) > end {
+		if int32(iv.start) < start && int32(iv.last) >= end {
 			return end - start
 		}
 		// iv is subset of range
@@ -2111,7 +2111,7 @@ func (c *Container) runCountRange(start, end int32) (n int32) {
 			n += int32(iv.last) - start + 1
 		}
 		// iv overlaps end of range
-		if int32(iv.start) > start && int32(iv.last) >= end {
+		if int32(iv.start) >= start && int32(iv.last) >= end {
 			n += end - int32(iv.start)
 		}
 	}
